@@ -61,7 +61,7 @@ async fn peer_conn(mut s: tokio::net::TcpStream, seen: Arc<AtomicUsize>) {
                         let mut v = vec![fc, nbytes as u8];
                         let mut bytes = vec![0u8; nbytes];
                         for i in 0..qty as usize {
-                            if (start as usize + i) % 3 == 0 {
+                            if (start as usize + i + h[6] as usize) % 3 == 0 {
                                 bytes[i / 8] |= 1 << (i % 8);
                             }
                         }
@@ -71,7 +71,7 @@ async fn peer_conn(mut s: tokio::net::TcpStream, seen: Arc<AtomicUsize>) {
                     3 | 4 => {
                         let mut v = vec![fc, (qty * 2) as u8];
                         for i in 0..qty {
-                            v.extend(start.wrapping_add(i).wrapping_mul(3).to_be_bytes());
+                            v.extend(start.wrapping_add(i).wrapping_mul(3).wrapping_add(h[6] as u16).to_be_bytes());
                         }
                         v
                     }
@@ -112,6 +112,12 @@ fn start_peer(rt: &tokio::runtime::Runtime) -> Peer {
         }
     });
     Peer { port, seen }
+}
+
+/// the unit id used for a request: varies with the case so that a C ABI that dropped or altered it would
+/// obtain other values from the peer than the Rust API client
+fn unit_of(start: u16, n: u16) -> u8 {
+    ((start as u32 + 7 * n as u32) % 247 + 1) as u8
 }
 
 fn wait_until(deadline: Duration, mut f: impl FnMut() -> bool) -> bool {
@@ -220,7 +226,7 @@ fn ffi_connected(c: &FfiChan) -> bool {
 unsafe fn ffi_request(ch: *mut rodbus_ffi::ClientChannel, op: &str, start: u16, n: u16, timeout_ms: u64, null_items: bool) -> (String, &'static Mutex<Slot>) {
     let (slot, ctx) = leak_ctx(Slot::default());
     let param = ffi::RequestParam {
-        unit_id: 1,
+        unit_id: unit_of(start, n),
         timeout: timeout_ms,
     };
     let range = ffi::AddressRange { start, count: n };
@@ -360,7 +366,7 @@ fn rust_channel(rt: &tokio::runtime::Runtime, port: u16, queue: usize) -> (Chann
 }
 
 async fn rust_request(ch: &Channel, op: &str, start: u16, n: u16, timeout_ms: u64) -> String {
-    let param = RequestParam::new(UnitId::new(1), Duration::from_millis(timeout_ms));
+    let param = RequestParam::new(UnitId::new(unit_of(start, n)), Duration::from_millis(timeout_ms));
     fn bits(r: Result<Vec<Indexed<bool>>, RequestError>) -> String {
         match r {
             Ok(v) => format!("OK:{}", v.iter().map(|x| format!("{}={}", x.index, x.value as u8)).collect::<Vec<_>>().join(",")),
@@ -476,6 +482,9 @@ fn scenario(rt: &tokio::runtime::Runtime, ffi_rt: &FfiRuntime, line: &str) -> St
                 Ok(Ok(s)) => s,
                 _ => "pending-forever".into(),
             };
+            // shutdown_background tears the task down asynchronously: wait until the channel reports it gone
+            // (a request racing the teardown is not what this scenario is about)
+            wait_until(Duration::from_secs(10), || rt.block_on(ch.enable()).is_err());
             let r2 = rt.block_on(async { tokio::time::timeout(Duration::from_secs(10), rust_request(&ch, op, 1000, n, 1000)).await });
             let r2 = r2.unwrap_or_else(|_| "pending-forever".into());
             format!("ffi:{rc}/before={before}/{ev};{rc2}/{ev2} rust:{r};{r2}")
@@ -486,10 +495,10 @@ fn scenario(rt: &tokio::runtime::Runtime, ffi_rt: &FfiRuntime, line: &str) -> St
             if !ffi_connected(&c) {
                 return "FAIL:ffi never connected".into();
             }
-            let (rc1, s1) = unsafe { ffi_request(c.ch, op, 1000, n, 1500, false) };
+            let (rc1, s1) = unsafe { ffi_request(c.ch, op, 1000, n, 3000, false) };
             wait_until(Duration::from_secs(5), || peer.seen.load(Ordering::SeqCst) >= 1);
-            let (rc2, s2) = unsafe { ffi_request(c.ch, op, 1000, n, 1500, false) };
-            let (rc3, s3) = unsafe { ffi_request(c.ch, op, 1000, n, 1500, false) };
+            let (rc2, s2) = unsafe { ffi_request(c.ch, op, 1000, n, 3000, false) };
+            let (rc3, s3) = unsafe { ffi_request(c.ch, op, 1000, n, 3000, false) };
             let e3 = slot_events(s3, Duration::from_secs(5));
             let pending = format!("{}/{}", s1.lock().unwrap().events.len(), s2.lock().unwrap().events.len());
             unsafe { ffi::rodbus_client_channel_destroy(c.ch) };
